@@ -7,6 +7,11 @@ import CifModel.Model.Columns
   route binds the value with SET_VALUE_PROPS and reads it with GET_VALUE_PROPS, so the route does not change the answer;
   the caller's object is immutable here, so neither does the mutation.
       ↦ `sv rc=0 m=<field-level dump>` | `sv rc=2` (CHECK constraint / serialisation failure)
+  `storeval bigparse <len> <t|q> <seed>`: a character value of <len> units read by the parser is the text written
+      ↦ `sv rc=0 m=same`
+  `storeval itsession 0 <value tokens>`: one iterator, update of packet 1, a rejected update at packet 2, update of packet 3;
+  the rows of the accepted updates hold `fromColumns (toColumns v)`, the row of the rejected one still holds the unknown value
+      ↦ `sv rc=0 u=0,rej,0 m=<dump>,U,<dump>` | `sv rc=0 u=2,rej,2 m=U,U,U` (value refused by the columns)
 -/
 namespace Driver.Fam.Storeval
 open Driver CifModel CifModel.Model.Columns
@@ -15,6 +20,26 @@ open Driver.Fam.Ser (showV parseNumb)
 def name : String := "storeval"
 
 def handle : Handler
+  | ["bigparse", len, style, seed] =>
+    match len.toNat?, seed.toNat? with
+    | some n, some _ => if n = 0 || !(["t", "q"].contains style) then none else some "sv rc=0 m=same"
+    | _, _ => none
+  | "itsession" :: "0" :: toks0 =>
+    match Ser.takeNormPairs toks0 with
+    | none => none
+    | some (nf, toks) =>
+    match CifArg.parseValue (Ser.cfg nf) (toks.length + 1) toks with
+    | some (v, []) =>
+      let refused := "sv rc=0 u=2,rej,2 m=U,U,U"
+      match toColumns v with
+      | none => some refused
+      | some row =>
+        if !checks row then some refused else
+        let d := match fromColumns parseNumb row with
+          | some v' => showV v'
+          | none => "~"
+        some ("sv rc=0 u=0,rej,0 m=" ++ d ++ ",U," ++ d)
+    | _ => none
   | route :: mode :: toks0 =>
     if !(["set", "additem", "addpkt", "update", "parse"].contains route) || !(["0", "1", "2"].contains mode) then none else
     match Ser.takeNormPairs toks0 with
